@@ -241,6 +241,22 @@ fn npt_grid(tr: &mut Tr, args: &Args, rng: &mut Rng) {
                 tr.ev(json!({"ev":"Npt","file":file,"index":ri,"Tr":fs(tr_),"pr":fs(pr),"p_in":fs(p.to_reduced()),
                     "none":root(DensityInitialization::None),"vapor":root(DensityInitialization::Vapor),"liquid":root(DensityInitialization::Liquid),
                     "init":root(DensityInitialization::InitialDensity(rho0)),"rho0_rel":fs(rho0.to_reduced()/eos.max_density(Some(&one)).unwrap().to_reduced())}));
+                // the same three single density iterations once more with hook H2 switched on: the loop's own account of what it did
+                for (label, init) in [("initial density", DensityInitialization::InitialDensity(rho0)), ("vapor", DensityInitialization::Vapor), ("liquid", DensityInitialization::Liquid)] {
+                    feos_core::verif::take();
+                    feos_core::verif::enable(true);
+                    let r = guarded(std::panic::AssertUnwindSafe(|| State::new_npt(&eos, t, p, &one, init)));
+                    feos_core::verif::enable(false);
+                    let mut lines = feos_core::verif::take();
+                    lines.sort_by_key(|l| seq_of(l));
+                    for l in lines.iter().filter(|l| l.contains("\"ev\":\"DI")) { tr.raw(l); }
+                    let (status, pret) = match &r {
+                        Ok(Ok(s)) => ("Ok".to_owned(), r0(s.pressure(CT))),
+                        Ok(Err(e)) => (err_name(e), f64::NAN),
+                        Err(m) => (format!("Panic:{}", m), f64::NAN),
+                    };
+                    tr.ev(json!({"ev":"DICall","file":file,"index":ri,"init":label,"Tr":fs(tr_),"pr":fs(pr),"p_in":fs(p.to_reduced()),"status":status,"p":fs(pret)}));
+                }
             }
         }
     }
